@@ -17,7 +17,7 @@ PROP = "C01"
 
 def run(ctx):
     res = Result(PROP)
-    res.rules = ["R-ENC", "R-EXIT", "R-INC", "R-ATTR", "R-EXC", "R-ONCE", "R-BOTH", "U-OWN", "U-COPY", "U-FUNC"]
+    res.rules = ["R-ENC", "R-EXIT", "R-INC", "R-ATTR", "R-EXC", "R-ONCE", "R-BOTH", "U-OWN", "U-COPY", "U-FUNC", "U-PROV", "U-GUARD", "U-BUMP"]
     res.explanation = (
         "Induction over edit histories done on the code: R-ENC shows every history is a sequence of core-method "
         "executions; for each writer method of Hypergraph (per valuation of its boolean mode parameters) a structured "
@@ -28,5 +28,5 @@ def run(ctx):
     eng = run_class(ctx, res, PROP, "Hypergraph", False, 13, skip=("__init__", "__setstate__"))
     if not ctx.only:
         check_enc(ctx, res, PROP, eng)
-        check_fresh(ctx, res, PROP)
+        check_fresh(ctx, res, PROP, ("Hypergraph",))
     return res
